@@ -44,6 +44,7 @@ def esc(s: str) -> str:
 _PLAIN = re.compile(r"[A-Za-z_][A-Za-z0-9_]*\Z")
 # bare multi-word spelling: an identifier followed by further words, each an identifier or a "quoted chunk" (whose quote
 # characters are part of the coalesced content)
+_PERCENT = re.compile(r"\d+\.\d*0%\Z|0\d+%\Z")      # percentages whose number is not in shortest form (canonical text quotes them)
 _WORDS = re.compile(r'[A-Za-z_][A-Za-z0-9_]*( ([A-Za-z_][A-Za-z0-9_]*|"[^" \\\\]*"))+\Z')
 RESERVED = ("true", "false", "null", "vs")
 
@@ -116,10 +117,14 @@ class _R:
             kinds.append("triple")
         if words_ok:
             kinds.append("words")
+        if _PERCENT.match(text):
+            kinds.append("barepct")       # a percentage may be written bare (GH#287); the canonical text quotes it
         o = self.pick("quote_form", len(kinds)) if len(kinds) > 1 else 0
         kind = kinds[o]
         if kind == "q":
             return [('"' + esc(text) + '"', None)]
+        if kind == "barepct":
+            return [(text, None)]
         if kind == "triple":
             body = text.replace("\\", "\\\\").replace("\t", "\\t")
             return [('"""' + body + '"""', ("normalization", '"""', text))]
@@ -160,6 +165,22 @@ class _R:
             i += 1
         if buf:
             segs.append((buf, None))
+        if not quoted_aware:
+            # optional quotes around a plain word that is a NON-FIRST operand of a bare operator expression (a→"b" reads as a→b)
+            last_op = None          # canonical character of the operator directly before the operand
+            for j, (txt, tag) in enumerate(segs):
+                if tag is not None:
+                    last_op = tag[2]
+                    continue
+                if txt.strip() in ALIASES:
+                    last_op = txt.strip()
+                    continue
+                if not txt.strip():
+                    continue
+                if last_op is not None and last_op != "§" and _PLAIN.match(txt) and txt not in RESERVED:
+                    if self.pick("quote_operand", 2) == 1:
+                        segs[j] = ('"' + txt + '"', None)
+                last_op = None
         return segs
 
     def v_list(self, v, indent_cols: int, first_prefix: list, suffix: list):
@@ -235,12 +256,12 @@ class _R:
 
     def comments(self, lead, cols):
         for c in lead:
-            self.line([(" " * cols + "// " + c, None)])
+            self.line([(" " * cols + "// " + c, None)] + self.tail())
 
     def kv(self, key, v, cols, trail=None, allow_multiword=True):
         """KEY::value at column offset cols."""
         pad = " " * cols
-        tr = [(" // " + trail, None)] if trail else []
+        tr = ([(" // " + trail, None)] + self.tail()) if trail else []
         if v[0] == "zone":
             op = "::"
             self.line([(pad + key + op, None)])
@@ -324,6 +345,9 @@ class _R:
                 self.kv(key, v, w)
 
     def doc(self, d):
+        if d["frontmatter"] is None:
+            for _ in range(self.pick("lead_blank", 3)):      # empty lines before the first line of the document
+                self.line([])
         if d["frontmatter"] is not None:
             self.line([("---", None)])
             for ln in d["frontmatter"].split("\n"):
